@@ -627,6 +627,8 @@ class FunctionParser(BaseParser):
         # not keyword-only argument may show up at pos args
         parsed_args = []
         parsed_keys = []
+        given_keys = set()
+        dependencies = set()
 
         # 1. parse giving args, including the positional args
         for i, arg in enumerate(args):
@@ -644,6 +646,10 @@ class FunctionParser(BaseParser):
                     if field.is_no_input(arg, options=context.options):
                         arg = field.get_default(options=context.options)
                     else:
+                        given_keys.add(field.attname)
+                        if field.attr_dependencies:
+                            # the dependencies of a parameter bind the same whether it is passed by position or by keyword
+                            dependencies.update(field.attr_dependencies)
                         arg = field.parse_value(arg, context=context)
                     if unprovided(arg):
                         # on_error=excluded, or error collected
@@ -685,6 +691,16 @@ class FunctionParser(BaseParser):
             # max_params / min_params count the arguments that are passed in, by position or by keyword
             params_num=len(args) + len(kwargs)
         )
+        if dependencies:
+            for key in kwargs:
+                field = self.get_field(str(key))
+                if field:
+                    given_keys.add(field.attname)
+            lack = dependencies.difference(given_keys)
+            if lack:
+                context.handle_error(
+                    exc.DependenciesAbsenceError(absence_dependencies=lack)
+                )
         context.raise_error()  # raise the parse error before calling the function
         return tuple(parsed_args), parsed_kwargs
 
